@@ -208,10 +208,10 @@ def tpv_post(ptype, dtype, scale):
         else:
             if T == 'INTEGER' and getattr(run, 'arg_log', None):
                 # proof hint (checked, then used): instantiate the minimality of np.argmin at the position of v itself
-                which, a, idx = run.arg_log[-1]
+                which, a, idx, g = run.arg_log[-1]
                 j0 = z3.ToInt(xreal.r(v)) - dom.lo
                 out.append(('C15._to_parameter_value.fixes_domain.%s.hint_argmin_at_v' % T,
-                            z3.Implies(SK.member(dom, v), z3.Not(xreal.lt(a.at(j0), a.at(idx)))), 'lemma'))
+                            z3.Implies(SK.member(dom, v), z3.And(g(j0) == xreal.fin(z3.RealVal(0)), z3.Not(xreal.lt(g(j0), g(idx))))), 'lemma'))
             out.append(('C15._to_parameter_value.fixes_domain.' + T, z3.Implies(SK.member(dom, v), same_value(val, v))))
         return out
     return post
@@ -253,3 +253,583 @@ def witness_terms(p):
             if z3.is_expr(t):
                 out.append((k, t))
     return out
+
+
+# =========================================================================================== B. encode -> decode round trip
+RAW_SORT = {'DOUBLE': xreal.XReal, 'DISCRETE': xreal.XReal, 'INTEGER': z3.IntSort(), 'CATEGORICAL': Str}
+
+
+def assume_member(run, dom, raw):
+    """precondition `raw` is a point of the domain (feasible-set types: with an explicit position witness)"""
+    if dom.ptype in ('DISCRETE', 'CATEGORICAL'):
+        run.w = run.fresh('w', z3.IntSort())
+        run.assume(SK.member_at(dom, raw, run.w))
+    else:
+        run.assume(SK.member(dom, raw))
+
+
+def rt_entry(ptype, dtype, scale):
+    """convert([trial]) followed by to_parameter_values: the REAL encode and decode pipelines (getter spec, scaler,
+    one-hot embedder, their inverses, clip / nearest value / index lookup) on one trial whose raw value is a point of
+    the domain.  The getter is a constructor parameter of the converter: here it returns the symbolic raw value."""
+    def entry(it):
+        run = it.run
+        run.stage = 'init'
+        run.raw = run.fresh('raw', RAW_SORT[ptype])
+        getter = Builtin('getter', lambda it_, args, kw: run.raw)
+        self, dom, opts = build_converter(it, ptype, dtype, scale, getter=getter, fixed={'converts_to_parameter': True})
+        assume_member(run, dom, run.raw)
+        run.stage = 'encode'
+        run.arr = K.call_method(it, self, 'convert', [[None]])
+        run.stage = 'decode'
+        return K.call_method(it, self, 'to_parameter_values', [run.arr])
+    return entry
+
+
+def onehot_row_formula(arr, row, D):
+    """exactly one entry of the row is 1 and all others are 0"""
+    one, zero = xreal.lit(1), xreal.lit(0)
+    k0 = z3.Int('k0!oh')
+    at = lambda k: arr.at(row, k)
+    D = NP.zi(D)
+    return z3.Exists([k0], z3.And(k0 >= 0, k0 < D, at(k0) == one,
+                                  NP.QA(D, lambda k: z3.Implies(k != k0, at(k) == zero))))
+
+
+def rt_post(ptype, dtype, scale):
+    T = ptype
+    exact = T != 'DOUBLE'
+
+    def post(p):
+        run = p.run
+        stage = getattr(run, 'stage', '')
+        if stage == 'init':
+            return []
+        if p.kind == 'raise':
+            return [('C15.roundtrip.no_raise.' + T, z3.BoolVal(False))]
+        out = [('C15.roundtrip.no_raise.' + T, z3.BoolVal(True))]
+        arr, res, opts = run.arr, p.value, run.opts
+        st = spec_type_name(run.conv)
+        # ---- shape of the features
+        if st == 'ONEHOT_EMBEDDING' and isinstance(arr, NP.NDArray) and arr.rank == 2:
+            out.append(('C15.onehot.exactly_one_active.' + T, onehot_row_formula(arr, 0, arr.shape[1])))
+        if st == 'CONTINUOUS' and scale in (None, 'LINEAR') and isinstance(arr, NP.NDArray):
+            x = arr.at(0, 0)
+            sc = E.zbool(opts.scale)
+            out.append(('C15.features.unit_interval.' + T,
+                        z3.Implies(sc, z3.And(xreal.is_fin(x), xreal.r(x) >= 0, xreal.r(x) <= 1))))
+        # ---- decode(encode(v)) == v
+        if scale in (None, 'LINEAR'):
+            name = 'C15.roundtrip.%s.%s' % ('exact' if exact else 'real_arithmetic', T)
+            if T == 'INTEGER':
+                # proof hints (each proved before it is used): instantiate the extremal fact of np.argmin (continuified
+                # decode) / np.argmax (one-hot unembed) at the position of the raw value itself
+                j0 = run.raw - run.dom.lo
+                for which, a, idx, g in getattr(run, 'arg_log', []):
+                    if which == 'min':
+                        out.append((name + '.hint_argmin_at_raw', z3.And(g(j0) == xreal.lit(0), z3.Not(xreal.lt(g(j0), g(idx)))), 'lemma'))
+                    elif a.dtype == 'float':
+                        out.append((name + '.hint_argmax_at_raw', z3.And(g(j0) == xreal.lit(1), z3.Not(xreal.lt(g(idx), g(j0)))), 'lemma'))
+            xs = M.try_iterate_safe(res) if hasattr(M, 'try_iterate_safe') else (res if isinstance(res, list) else None)
+            if xs is None or len(xs) != 1 or xs[0] is None:
+                out.append((name, z3.BoolVal(False)))
+            else:
+                out.append((name, same_value(SK.value_of(xs[0]), run.raw)))
+        return out
+    return post
+
+
+# =========================================================================================== G. to_parameter_values: decode comes last
+TPV_KEY = CORE + ':DefaultModelInputConverter._to_parameter_value'
+decode_f = z3.Function('decode_float', xreal.XReal, pm.PyObj)
+decode_i = z3.Function('decode_int', z3.IntSort(), pm.PyObj)
+
+
+def _decode_contract(it, args, kw):
+    """_to_parameter_value by its contract (family A proves it for every argument): an uninterpreted result"""
+    v = args[1]
+    t = E.to_z3(v) if not isinstance(v, float) else xreal.lit(v)
+    r = decode_f(t) if t.sort() == xreal.XReal else decode_i(t)
+    it.run.__dict__.setdefault('decode_calls', []).append(t)
+    return r
+
+
+def tpvs_entry(ptype, dtype, scale):
+    def entry(it):
+        run = it.run
+        run.stage = 'init'
+        self, dom, opts = build_converter(it, ptype, dtype, scale)
+        spec = self.attrs['_output_spec']
+        d = spec.attrs['num_dimensions']
+        run.m = run.fresh('rows', z3.IntSort())
+        run.assume(run.m >= 0)
+        st = spec_type_name(self)
+        run.array = NP.fresh_array(run, 'features', (run.m, d), 'int' if st == 'DISCRETE' else 'float')
+        run.stage = 'decode'
+        return K.call_method(it, self, 'to_parameter_values', [run.array])
+    return entry
+
+
+def tpvs_post(ptype, dtype, scale):
+    T = ptype
+
+    def post(p):
+        run = p.run
+        if getattr(run, 'stage', '') != 'decode':
+            return []
+        if p.kind == 'raise':
+            # the only refusals: a one-hot block without columns cannot occur (num_dimensions >= 1)
+            return [('C15.to_parameter_values.no_raise.' + T, z3.BoolVal(False))]
+        res = p.value
+        out = [('C15.to_parameter_values.no_raise.' + T, z3.BoolVal(True))]
+        if not isinstance(res, SymList):
+            return out + [('C15.to_parameter_values.one_result_per_row.' + T, z3.BoolVal(False))]
+        out.append(('C15.to_parameter_values.one_result_per_row.' + T, res.n == run.m))
+        src = getattr(res, 'map_of', None)
+        calls = getattr(run, 'decode_calls', [])
+        j = z3.Int('j!dec')
+        if src is None or len(calls) != 1:
+            out.append(('C15.to_parameter_values.decode_is_last.' + T, z3.BoolVal(False)))
+        else:
+            dec = decode_f if src.elem == 'float' else decode_i
+            out.append(('C15.to_parameter_values.decode_is_last.' + T,
+                        z3.ForAll([j], z3.Implies(z3.And(j >= 0, j < res.n), res.arr[j] == dec(src.arr[j])))))
+        return out
+    return post
+
+
+# =========================================================================================== C. one-hot embedder
+def onehot_entry(dtype, arbitrary):
+    """the REAL NumpyArraySpec.from_parameter_config + ModelInputArrayBijector.onehot_embedder_from_spec on a CATEGORICAL
+    definition with a symbolic number of categories; embed an index column of symbolic height / unembed an arbitrary block"""
+    def entry(it):
+        run = it.run
+        run.stage = 'init'
+        run.dom = dom = K.Dom(run, 'CATEGORICAL')
+        pc = make_pc(it, dom)
+        run.pad = run.fresh('pad_oovs', z3.BoolSort())
+        cls = core().classes['NumpyArraySpec']
+        spec = K.call_method(it, cls, 'from_parameter_config', [pc, it.getattr(core().classes['NumpyArraySpecType'], 'default_factory')],
+                             {'pad_oovs': run.pad})
+        bij = K.call_method(it, core().classes['ModelInputArrayBijector'], 'onehot_embedder_from_spec', [spec],
+                            {'dtype': np_type(dtype), 'pad_oovs': run.pad})
+        run.bij = bij
+        run.D = bij.attrs['output_spec'].attrs['num_dimensions']
+        run.m = run.fresh('rows', z3.IntSort())
+        run.assume(run.m >= 0)
+        run.stage = 'run'
+        if arbitrary:
+            run.y = NP.fresh_array(run, 'block', (run.m, run.D), 'float')
+            return it.call(bij.attrs['backward_fn'], [run.y], {})
+        run.x = NP.fresh_array(run, 'idx', (run.m, 1), 'int')
+        D = NP.zi(run.D)
+        NP.fact(run, NP.QA(run.m, lambda i: z3.And(run.x.at(i, 0) >= 0, run.x.at(i, 0) < D)))
+        run.emb = it.call(bij.attrs['forward_fn'], [run.x], {})
+        return it.call(bij.attrs['backward_fn'], [run.emb], {})
+    return entry
+
+
+def onehot_post(dtype, arbitrary):
+    def post(p):
+        run = p.run
+        if getattr(run, 'stage', '') != 'run':
+            return [('C15.onehot.construction_no_raise', z3.BoolVal(p.kind != 'raise'))]
+        if p.kind == 'raise':
+            return [('C15.onehot.no_raise', z3.BoolVal(False))]
+        n = run.dom.fv.n
+        un = p.value
+        out = [('C15.onehot.no_raise', z3.BoolVal(True)),
+               ('C15.onehot.width', NP.zi(run.D) == n + z3.If(run.pad, 1, 0))]
+        if not (isinstance(un, NP.NDArray) and un.rank == 1):
+            return out + [('C15.onehot.unembed_range', z3.BoolVal(False))]
+        # whatever the block contains, unembedding yields an in-vocabulary index per row
+        out.append(('C15.onehot.unembed_range', z3.And(NP.zi(un.shape[0]) == run.m,
+                                                        NP.QA(run.m, lambda i: z3.And(un.at(i) >= 0, un.at(i) < n)))))
+        if arbitrary:
+            return out
+        emb, x = run.emb, run.x
+        one, zero = xreal.lit(1), xreal.lit(0)
+        D = NP.zi(run.D)
+        ok_shape = isinstance(emb, NP.NDArray) and emb.rank == 2
+        if not ok_shape:
+            return out + [('C15.onehot.embed.exactly_one_active', z3.BoolVal(False))]
+        out.append(('C15.onehot.embed.shape', z3.And(NP.zi(emb.shape[0]) == run.m, NP.zi(emb.shape[1]) == D)))
+        out.append(('C15.onehot.embed.exactly_one_active',
+                    NP.QA(run.m, lambda i: z3.And(emb.at(i, x.at(i, 0)) == one,
+                                                  NP.QA(D, lambda k: z3.Implies(k != x.at(i, 0), emb.at(i, k) == zero))))))
+        # proof hint: the extremal fact of argmax instantiated at the active column
+        i0 = z3.Int('i0!oh')
+        out.append(('C15.onehot.unembed_inverse',
+                    z3.ForAll([i0], z3.Implies(z3.And(i0 >= 0, i0 < run.m, x.at(i0, 0) < n), un.at(i0) == x.at(i0, 0)))))
+        return out
+    return post
+
+
+# =========================================================================================== E/F. scaler_from_spec
+def scaler_entry(dtype, scale, degenerate):
+    def entry(it):
+        run = it.run
+        run.stage = 'init'
+        run.dom = dom = K.Dom(run, 'DOUBLE')
+        lo, hi = xreal.r(dom.lo), xreal.r(dom.hi)
+        run.assume(lo == hi if degenerate else lo < hi)
+        pc = make_pc(it, dom, scale)
+        SK.LOG_OBLIGATION[0] = 'C15.scaler_from_spec.log_of_positive.' + str(scale)
+        spec = K.call_method(it, core().classes['NumpyArraySpec'], 'from_parameter_config',
+                             [pc, it.getattr(core().classes['NumpyArraySpecType'], 'default_factory')], {'floating_dtype': np_type(dtype)})
+        run.bij = bij = K.call_method(it, core().classes['ModelInputArrayBijector'], 'scaler_from_spec', [spec], {})
+        if scale in ('LOG', 'REVERSE_LOG'):
+            # transcendental: only the definedness of the construction is an obligation (np.log of the bounds); the
+            # numeric round trip of these scalers is a bounded stand-in on the real code
+            run.stage = 'built'
+            return bij
+        run.stage = 'run'
+        SK.LOG_OBLIGATION[0] = LOGDOM
+        run.x, run.y, run.s = run.fresh('x', xreal.XReal), run.fresh('y', xreal.XReal), run.fresh('s', xreal.XReal)
+        for t in (run.x, run.y):
+            run.assume(z3.And(xreal.is_fin(t), lo <= xreal.r(t), xreal.r(t) <= hi))
+        run.assume(z3.And(xreal.is_fin(run.s), xreal.r(run.s) >= 0, xreal.r(run.s) <= 1))
+        f, b = bij.attrs['forward_fn'], bij.attrs['backward_fn']
+        call = lambda fn, t: it.call(fn, [t], {})
+        run.fx, run.fy, run.flo, run.fhi = call(f, run.x), call(f, run.y), call(f, dom.lo), call(f, dom.hi)
+        run.bfx = call(b, run.fx)
+        run.bs = call(b, run.s)
+        run.fbs = call(f, run.bs)
+        return bij
+    return entry
+
+
+def scaler_post(dtype, scale, degenerate):
+    S = 'LINEAR' if scale is None else scale
+    if degenerate:
+        S += '.single_point'
+
+    def post(p):
+        run = p.run
+        if getattr(run, 'stage', '') != 'run':
+            return []           # refused by the constructor (LOG with a negative bound: ValueError)
+        if p.kind == 'raise':
+            return [('C15.scaler.no_raise.' + S, z3.BoolVal(False))]
+        R, fin = xreal.r, xreal.is_fin
+        lo, hi = R(run.dom.lo), R(run.dom.hi)
+        fx, fy, flo, fhi, bfx, bs, fbs = [xreal.lift(t) for t in (run.fx, run.fy, run.flo, run.fhi, run.bfx, run.bs, run.fbs)]
+        x, y, s = run.x, run.y, run.s
+        out = [('C15.scaler.no_raise.' + S, z3.BoolVal(True)),
+               ('C15.scaler.unit_interval.' + S, z3.And(fin(fx), R(fx) >= 0, R(fx) <= 1)),
+               ('C15.scaler.inverse.decode_encode.' + S, z3.And(fin(bfx), R(bfx) == R(x))),
+               ('C15.scaler.inverse.encode_decode.' + S, z3.And(fin(fbs), R(fbs) == R(s)))]
+        if not degenerate:
+            out.append(('C15.scaler.decode_into_bounds.' + S, z3.And(fin(bs), lo <= R(bs), R(bs) <= hi)))
+        ob = run.bij.attrs['output_spec'].attrs['bounds']
+        b0, b1 = [xreal.lift(t) for t in ob]
+        if degenerate:
+            out.append(('C15.scaler.output_bounds.' + S, z3.And(R(b0) <= R(flo), R(flo) <= R(b1), R(b0) >= 0, R(b1) <= 1)))
+        else:
+            out.append(('C15.scaler.orientation.' + S, z3.And(fin(flo), fin(fhi), R(flo) == 0, R(fhi) == 1,
+                                                             z3.Implies(R(x) < R(y), R(fx) < R(fy)))))
+            out.append(('C15.scaler.output_bounds.' + S, z3.And(R(b0) == 0, R(b1) == 1)))
+        return out
+    return post
+
+
+# =========================================================================================== D. labels: convert / to_metrics
+BSC = 'vizier._src.pyvizier.shared.base_study_config'
+
+
+def labels_entry(dtype, goal, raise_missing):
+    """REAL DefaultModelOutputConverter.__init__ / convert / to_metrics on an objective metric; the measurement list has
+    three positions: the metric is present (arbitrary float value), the measurement is None, the metric is missing."""
+    def entry(it):
+        run = it.run
+        run.stage = 'init'
+        bsc = ModuleInfo.get(BSC)
+        run.name = run.fresh('metric_name', Str)
+        mi = it.call(bsc.classes['MetricInformation'], [run.name], {'goal': A.enum_member(it, bsc.classes['ObjectiveMetricGoal'], goal)})
+        run.flip = run.fresh('flip_sign_for_minimization_metrics', z3.BoolSort())
+        conv = it.call(core().classes['DefaultModelOutputConverter'], [mi],
+                       {'flip_sign_for_minimization_metrics': run.flip, 'dtype': np_type(dtype), 'raise_errors_for_missing_metrics': raise_missing})
+        run.oconv = conv
+        trm = ModuleInfo.get(TRM)
+        run.v = run.fresh('v', xreal.XReal)
+        other = run.fresh('other_name', Str)
+        run.assume(other != run.name)
+        mk = lambda d: A.make_instance(it, trm.classes['Measurement'], metrics=d, elapsed_secs=0.0, steps=0, checkpoint_path='')
+        metric = it.call(trm.classes['Metric'], [], {'value': run.v})
+        d1, d3 = M.PyDict(), M.PyDict()
+        d1.set(it, run.name, metric)
+        d3.set(it, other, it.call(trm.classes['Metric'], [], {'value': 1.0}))
+        run.ms = [mk(d1)] if raise_missing else [mk(d1), None, mk(d3)]
+        run.stage = 'convert'
+        run.labels = K.call_method(it, conv, 'convert', [run.ms])
+        run.stage = 'to_metrics'
+        run.metrics = K.call_method(it, conv, 'to_metrics', [run.labels])
+        run.stage = 'info'
+        return it.getattr(conv, 'metric_information')
+    return entry
+
+
+def labels_post(dtype, goal, raise_missing):
+    G = goal
+
+    def post(p):
+        run = p.run
+        stage = getattr(run, 'stage', '')
+        if stage == 'init':
+            return [('C15.labels.construction_no_raise', z3.BoolVal(p.kind != 'raise'))]
+        if p.kind == 'raise':
+            return [('C15.labels.no_raise.' + G, z3.BoolVal(False))]
+        out = [('C15.labels.no_raise.' + G, z3.BoolVal(True))]
+        v, flip = run.v, run.flip
+        lab, mets = run.labels, run.metrics
+        n = 1 if raise_missing else 3
+        ok = isinstance(lab, NP.NDArray) and lab.rank == 2 and NP.conc(lab.shape[0]) == n and isinstance(mets, list) and len(mets) == n
+        if not ok:
+            return out + [('C15.labels.shape.' + G, z3.BoolVal(False))]
+        out.append(('C15.labels.shape.' + G, NP.zi(lab.shape[1]) == 1))
+        flipped = z3.And(flip, z3.BoolVal(G == 'MINIMIZE'))
+        l0 = lab.at(0, 0)
+        # model form: the value itself, negated iff the metric is minimised and the converter flips minimisation metrics
+        out.append(('C15.labels.convert.sign.' + G, l0 == z3.If(flipped, xreal.neg(v), v)))
+        # and back: the original value (finite values); NaN and +-inf labels are reported as None
+        m0 = mets[0]
+        if m0 is None:
+            out.append(('C15.labels.sign_roundtrip.' + G, z3.Not(xreal.is_fin(v))))
+        elif isinstance(m0, Obj) and E.class_name(m0.cls) == 'Metric':
+            out.append(('C15.labels.sign_roundtrip.' + G, z3.And(xreal.is_fin(v), xreal.lift(m0.attrs['value']) == v)))
+        else:
+            out.append(('C15.labels.sign_roundtrip.' + G, z3.BoolVal(False)))
+        if not raise_missing:
+            out.append(('C15.labels.missing_is_nan.' + G, z3.And(xreal.is_nan(lab.at(1, 0)), xreal.is_nan(lab.at(2, 0)))))
+            out.append(('C15.labels.nan_is_none.' + G, z3.BoolVal(mets[1] is None and mets[2] is None)))
+        # the reported MetricInformation reflects the convention of the labels (goal flipped iff the sign was flipped)
+        info = p.value
+        g = info.attrs.get('goal') if isinstance(info, Obj) else None
+        gname = A_enum_name(g) if g is not None else None
+        other = 'MAXIMIZE' if G == 'MINIMIZE' else 'MINIMIZE'
+        out.append(('C15.labels.metric_information.goal.' + G,
+                    z3.If(flipped, z3.BoolVal(gname == other), z3.BoolVal(gname == G))))
+        return out
+    return post
+
+
+# =========================================================================================== replay of counter-models
+REPLAY = os.path.join(report.VERIF, 'replay', 'c15_replay.py')
+
+
+def run_replay(job):
+    return K.run_replay(job, driver=REPLAY)
+
+
+def pc_spec(m, run, scale):
+    d = K.dom_spec(m, run.dom)
+    d['scale'] = scale
+    return d
+
+
+def opts_spec(m, opts):
+    ev = lambda t: (z3.is_true(m.eval(t, model_completion=True)) if z3.is_expr(t) else bool(t))
+    mdi = opts.mdi
+    if z3.is_expr(mdi):
+        mdi = m.eval(mdi, model_completion=True).as_long()
+    return {'scale': ev(opts.scale), 'onehot_embed': ev(opts.onehot), 'pad_oovs': ev(opts.pad_oovs), 'converts_to_parameter': ev(opts.converts),
+            'max_discrete_indices': mdi, 'should_clip': bool(opts.should_clip)}
+
+
+def replay_tpv(dtype, scale):
+    def on_violation(name, p, m):
+        run = p.run
+        return run_replay({'kind': 'tpv', 'obligation': name, 'pc': pc_spec(m, run, scale), 'opts': opts_spec(m, run.opts), 'dtype': dtype,
+                           'value': K.enc(K.model_scalar(m, run.v))})
+    return on_violation
+
+
+def replay_rt(dtype, scale):
+    def on_violation(name, p, m):
+        run = p.run
+        return run_replay({'kind': 'roundtrip', 'obligation': name, 'pc': pc_spec(m, run, scale), 'opts': opts_spec(m, run.opts), 'dtype': dtype,
+                           'raw': K.enc(K.model_scalar(m, run.raw))})
+    return on_violation
+
+
+def replay_labels(dtype, goal, raise_missing):
+    def on_violation(name, p, m):
+        run = p.run
+        return run_replay({'kind': 'labels', 'obligation': name, 'goal': goal, 'dtype': dtype, 'raise_missing': raise_missing,
+                           'flip': z3.is_true(m.eval(run.flip, model_completion=True)), 'value': K.enc(K.model_scalar(m, run.v))})
+    return on_violation
+
+
+def replay_scaler(dtype, scale):
+    def on_violation(name, p, m):
+        run = p.run
+        job = {'kind': 'scaler', 'obligation': name, 'pc': pc_spec(m, run, scale), 'dtype': dtype}
+        for k in ('x', 'y', 's'):
+            if hasattr(run, k):
+                job[k] = K.enc(K.model_scalar(m, getattr(run, k)))
+        return run_replay(job)
+    return on_violation
+
+
+def replay_onehot(dtype, arbitrary):
+    def on_violation(name, p, m):
+        run = p.run
+        ev = lambda t: m.eval(t, model_completion=True)
+        n = ev(run.dom.fv.n).as_long()
+        rows = min(max(ev(run.m).as_long(), 0), 4)
+        job = {'kind': 'onehot', 'obligation': name, 'n': n, 'pad_oovs': z3.is_true(ev(run.pad)), 'dtype': dtype}
+        if n > 64:
+            return {'job': job, 'note': 'counter-model with %d categories: not replayed' % n}, None
+        if arbitrary:
+            D = n + (1 if job['pad_oovs'] else 0)
+            job['block'] = [[K.enc(xreal.model_value(m, run.y.at(i, k))) for k in range(D)] for i in range(rows)]
+        else:
+            job['indices'] = [ev(run.x.at(i, 0)).as_long() for i in range(rows)]
+        return run_replay(job)
+    return on_violation
+
+
+# =========================================================================================== driver
+class Scoped:
+    def __init__(self, chk):
+        self.chk = chk
+
+    def obligation(self, name, *a, **k):
+        if not name.startswith(PID + '.'):
+            name = PID + '.' + name
+        return self.chk.obligation(name, *a, **k)
+
+    def __getattr__(self, a):
+        return getattr(self.chk, a)
+
+
+FUNCTIONS = [
+    (CORE, 'DefaultModelInputConverter.__init__'), (CORE, 'DefaultModelInputConverter._to_parameter_value'),
+    (CORE, 'DefaultModelInputConverter.to_parameter_values'), (CORE, 'DefaultModelInputConverter.convert'),
+    (CORE, 'DefaultModelInputConverter._convert_index'), (CORE, 'DefaultModelInputConverter._convert_continuous'),
+    (CORE, 'NumpyArraySpec.from_parameter_config'), (CORE, 'NumpyArraySpec.__attrs_post_init__'), (CORE, 'NumpyArraySpecType.default_factory'),
+    (CORE, 'ModelInputArrayBijector.scaler_from_spec'), (CORE, 'ModelInputArrayBijector.onehot_embedder_from_spec'),
+    (CORE, 'ModelInputArrayBijector.identity'),
+    (CORE, 'DefaultModelOutputConverter.__init__'), (CORE, 'DefaultModelOutputConverter.convert'), (CORE, 'DefaultModelOutputConverter.to_metrics'),
+    (CORE, 'DefaultModelOutputConverter._should_flip_sign'), (CORE, 'DefaultModelOutputConverter.metric_information'),
+    (PCM, 'ParameterConfig.continuify'), (PCM, 'ParameterConfig.feasible_values'), (PCM, 'ParameterConfig.bounds'),
+    (PCM, 'ParameterConfig.num_feasible_values'), (TRM, 'ParameterValue.cast_as_internal'),
+]
+
+F_LOG = 'C15.scaler_from_spec.log_of_positive.LOG'
+F_RLOG = 'C15.scaler_from_spec.log_of_positive.REVERSE_LOG'
+F_WIDE = 'C15.standin.REVERSE_LOG.wide_range'
+
+
+def log_class(scale):
+    def cls_fn(p):
+        lo = xreal.r(p.run.dom.lo)
+        return lo == 0 if scale == 'LOG' else lo <= 0
+    return cls_fn
+
+
+def families(tier):
+    fams = []
+    T = 'DefaultModelInputConverter._to_parameter_value'
+    for dt in ('float32', 'float64'):
+        for pt in TYPES:
+            for sc in (SCALES if pt == 'DOUBLE' else (None,)):
+                fams.append((T, tpv_entry(pt, dt, sc), tpv_post(pt, dt, sc), replay_tpv(dt, sc), None))
+    dt = 'float64'
+    for pt in TYPES:
+        for sc in ((None, 'LINEAR') if pt == 'DOUBLE' else (None,)):
+            fams.append(('DefaultModelInputConverter.convert+to_parameter_values', rt_entry(pt, dt, sc), rt_post(pt, dt, sc), replay_rt(dt, sc), None))
+    for pt in TYPES:
+        for sc in (SCALES if pt == 'DOUBLE' else (None,)):
+            fams.append(('DefaultModelInputConverter.to_parameter_values', tpvs_entry(pt, dt, sc), tpvs_post(pt, dt, sc), None, 'decode-contract'))
+    for arb in (False, True):
+        fams.append(('ModelInputArrayBijector.onehot_embedder_from_spec', onehot_entry(dt, arb), onehot_post(dt, arb), replay_onehot(dt, arb), None))
+    for sc in SCALES:
+        for deg in (False, True):
+            fams.append(('ModelInputArrayBijector.scaler_from_spec', scaler_entry(dt, sc, deg), scaler_post(dt, sc, deg), replay_scaler(dt, sc), None))
+    for goal in ('MAXIMIZE', 'MINIMIZE'):
+        for rm in (False, True):
+            for d2 in ('float32', 'float64'):
+                fams.append(('DefaultModelOutputConverter.convert+to_metrics', labels_entry(d2, goal, rm), labels_post(d2, goal, rm),
+                             replay_labels(d2, goal, rm), None))
+    return fams
+
+
+def main(tier):
+    chk = report.Check(PID, tier, level='proof',
+                       technique='contract-based deductive verification: the real converter constructors and encode/decode methods executed '
+                                 'symbolically (pyvc) on symbolic parameter definitions, options and array elements; XReal floats; array-lists '
+                                 'and arrays of symbolic extent; oracle from the property statement; z3')
+    for t in A.TRUST + SK.TRUST + ['pyvc VC generator and its Python/numpy models (DESIGN 2, 4.5; pyvc/np_model.py, pyvc/spacekit.py)', 'z3 5.1.0',
+                                   'symbolic parameter definitions satisfy the postcondition of ParameterConfig.factory (proved by the C16 check)']:
+        chk.trust(t)
+    for a in ASSUMPTIONS:
+        chk.assume(a)
+    for n in NOT_COVERED:
+        chk.note('NOT COVERED: ' + n + '.')
+    for dotted, q in FUNCTIONS:
+        chk.function(dotted, q)
+    # ---- native side (real code), in the background
+    natives = {'findings': K.start_native(['findings'], 'c15f', driver=REPLAY),
+               'np_facts': K.start_native(['np_facts'], 'c15n', driver=REPLAY),
+               'standin': K.start_native(['standin_logscale', tier], 'c15s', driver=REPLAY)}
+    # ---- deductive side
+    known = {}
+    for name, sc in ((F_LOG, 'LOG'), (F_RLOG, 'REVERSE_LOG')):
+        f = chk.finding_for(name)
+        if f:
+            known[name] = (f['what'], log_class(sc))
+    timeout = 8000 if tier == 'quick' else 60000
+    inlined = set()
+    only = lambda n: n.startswith(PID + '.')
+    for fname, entry, post, onv, mode in families(tier):
+        if mode == 'decode-contract':
+            E.MODELS[TPV_KEY] = _decode_contract
+        try:
+            fr = verify.verify_function(Scoped(chk), fname, entry, post, known=known, on_violation=onv, witness_terms=witness_terms,
+                                        timeout_ms=timeout, deadline_s=120, only=only)
+        finally:
+            E.MODELS.pop(TPV_KEY, None)
+        inlined |= fr.inlined
+    chk.extra['inlined_real_functions'] = sorted(inlined)
+    if any(o['obligation'].startswith('C15.to_parameter_values.decode_is_last') for o in chk.obligations):
+        chk.note('C15.to_parameter_values.* are proved against the contract of _to_parameter_value (an uninterpreted decode function); '
+                 'together with C15._to_parameter_value.in_domain.* (any argument) every decoded element is None or inside the domain, '
+                 'whatever the scaler / one-hot inverse computed before it.')
+    # ---- native side
+    res, verdict, err = K.collect_native(natives['np_facts'])
+    if res is None or verdict != 'NOT-REPRODUCED':
+        chk.error('C15.np_model.cross_check', 'numpy facts assumed by the model disagree with the real numpy (or the driver failed): %s %s' % (verdict, err or res))
+    else:
+        chk.note('numpy model facts cross-checked against the real numpy: %s' % ', '.join(res['checked']))
+    res, verdict, err = K.collect_native(natives['findings'])
+    if known:
+        if verdict != 'REPRODUCED':
+            chk.error('C15.known_finding.stale', 'the recorded LOG/REVERSE_LOG findings were not reproduced on the real code: %s %s' % (verdict, err or res))
+        else:
+            chk.note('finding witnesses replayed on the real code: %s' % json.dumps(res))
+    res, verdict, err = K.collect_native(natives['standin'], timeout=600)
+    fw = chk.finding_for(F_WIDE)
+    bound = ('grid: %s tier; lower bounds 1e-300..1e12 x ratios hi/lo in 1+1e-12..1e100 x 10 points per range x {LINEAR, LOG, REVERSE_LOG} x '
+             '{float64, float32 (ratio >= 1.001, 1e-30 < lo, hi < 1e30)}; tolerance min(1e-3, 1e-6 + 4 eps (hi/lo)/ln(hi/lo)) in the scaled coordinate' % tier)
+    if res is None:
+        chk.error('C15.standin.logscale', 'native grid did not run: %s %s' % (verdict, err))
+    else:
+        if res['n_failures']:
+            chk.obligation('C15.standin.scaled_roundtrip', 'DefaultModelInputConverter.convert+to_parameter_values', 'native-enumeration', report.VIOLATED, 0.0,
+                           detail=res['failures'][0], model=json.dumps(res['failures'][:5]),
+                           replay={'cmd': '/venv/bin/python %s standin_logscale %s' % (REPLAY, tier), 'first_failure': res['failures'][0]}, reproduced=True)
+        else:
+            chk.bounded_standin('scaled continuous encode -> decode on the real code (DefaultModelInputConverter(scale=True): unit interval, orientation lo->0 hi->1, '
+                                'decode inside [lo, hi], round trip to floating-point accuracy) outside the recorded REVERSE_LOG wide-range class',
+                                bound, 'held', detail={k: res[k] for k in ('cases', 'worst_error')})
+        if res['n_known_class']:
+            if fw:
+                chk.obligation(F_WIDE, 'ModelInputArrayBijector.scaler_from_spec', 'native-enumeration', report.KNOWN, 0.0,
+                               detail={'grid_failures_in_class': res['n_known_class'], 'examples': res['known_class_examples']}, finding=fw['what'])
+            else:
+                chk.obligation(F_WIDE, 'ModelInputArrayBijector.scaler_from_spec', 'native-enumeration', report.VIOLATED, 0.0,
+                               detail=res['known_class_examples'][0], model=json.dumps(res['known_class_examples']),
+                               replay={'cmd': '/venv/bin/python %s standin_logscale %s' % (REPLAY, tier)}, reproduced=True)
+        elif fw:
+            chk.error('C15.known_finding.stale', 'the REVERSE_LOG wide-range finding no longer shows on the grid: update known_findings.d/C15.json')
+    return chk.finish(min_obligations=60)
